@@ -452,3 +452,42 @@ def run(ck, prog):
     _run_pre_negcast(ck, prog)
     from sa import negcast
     negcast.run_rule(ck, prog, set(DIMENSION_FILES))
+
+
+# ------------------------------------------------------------------ OOB mean: the number of out-of-bag trees can be zero
+_run_pre_oobdiv = run
+
+
+def oob_mean_guarded(ck, prog):
+    """'regressor predictions lie within the range of the training targets' and the OOB prediction 'aggregates ... only the trees
+    whose bootstrap sample did not contain row i': the mean divides by the number of such trees, a counter that starts at 0
+    and is incremented under the mask test - it is 0 for a row that every tree drew (certain for n_trees = 1 and in-bag rows).
+    Guarded-division rule on RandomForestRegressor::predict_for_row_oob."""
+    from sa import divguard
+    rule, inst = "E2-guarded-division", "regressor predict_for_row_oob: the out-of-bag tree count is tested before dividing by it"
+    b = prog.bodies.get("ensemble::random_forest_regressor::RandomForestRegressor::<T>::predict_for_row_oob")
+    if b is None:
+        ck.violation(rule, inst, "predict_for_row_oob", "", expected="anchor exists", found="anchor vanished")
+        return
+    # a counter: phi(0 | _ + 1)
+    def is_counter(t):
+        return t[0] == "phi" and any(a == ("int", 0) for a in t[2]) and \
+            any(a[0] == "bin" and a[1] in ("Add", "AddWithOverflow") and ("int", 1) in (a[2], a[3]) for a in t[2]) or \
+            (t[0] == "phi" and any(a == ("int", 0) for a in t[2]) and any(a[0] == "field" and a[1][0] == "bin" and a[1][1].startswith("Add") for a in t[2]))
+    sites = divguard.check(b, is_counter)
+    if not sites:
+        ck.note(f"{inst}: no division by a conditional counter (mean formed differently): no instance")
+        return
+    for k, (where, den, guarded) in enumerate(sites):
+        if guarded:
+            ck.ok(rule, inst, b.path, where, f"division by `{render(den)[:60]}` behind a non-zero test")
+        else:
+            ck.violation(rule, inst, b.path, where, ordinal=k,
+                         expected="a zero test of the out-of-bag tree count on every path to the division (error or fallback for a row no tree left out)",
+                         found=f"divides by `{render(den)[:80]}` unconditionally: the count is 0 for a row contained in every bootstrap sample "
+                               f"(every in-bag row when n_trees = 1) and predict_oob returns Ok with NaN")
+
+
+def run(ck, prog):
+    _run_pre_oobdiv(ck, prog)
+    oob_mean_guarded(ck, prog)
